@@ -43,13 +43,13 @@ theorem schemaQ_of_refsOk {S : Schema} (h : schemaRefsOkB S = true) (Q : Gql.Pos
   simp only [Bool.and_eq_true, List.all_eq_true] at h
   obtain ⟨ht, hd⟩ := h
   refine ⟨?_, ?_, ?_, ?_⟩
-  · intro n td hn f hf
+  · intro n td hn _ f hf
     exact tOk_of_isSome ((ht td (List.mem_of_find?_eq_some hn)).1.1 f hf)
-  · intro n td hn fd hfd a ha
+  · intro n td hn _ fd hfd a ha
     exact tOk_of_isSome ((ht td (List.mem_of_find?_eq_some hn)).1.2 fd hfd a ha)
   · intro n dd hn a ha
     exact tOk_of_isSome (hd dd (List.mem_of_find?_eq_some hn) a ha)
-  · intro n td hn m hm
+  · intro n td hn _ m hm
     exact Or.inl (CheckOp.kindOf_beq_some ((ht td (List.mem_of_find?_eq_some hn)).2 m hm))
 
 theorem refsOk_of_valid {S : Schema} (h : Valid.SchemaValid S) : schemaRefsOkB S = true := by
@@ -128,6 +128,31 @@ theorem located_of_inRange (r : Run) (o : Outcome) (h : runCli r = some o) (hr :
       have := getFile_operation r.schemaFiles.length r.opFiles.length (e.diag.pos.file - r.schemaFiles.length)
         (by omega)
       rwa [Nat.add_sub_cancel' hge] at this
+
+theorem parseErrs_extra (k : FileKind) (c : Cls) (base : Nat) (fs : List ParseRes) :
+    ∀ e ∈ parseErrs k c base fs, e.diag.extra = [] := by
+  induction fs generalizing base with
+  | nil => intro e he; simp [parseErrs] at he
+  | cons f rest ih =>
+    intro e he
+    cases f with
+    | ok => simp only [parseErrs] at he; exact ih _ e he
+    | err l col t =>
+      simp only [parseErrs, List.mem_cons] at he
+      rcases he with rfl | he
+      · rfl
+      · exact ih _ e he
+
+/-- when the check ran, all input files are in the store -/
+theorem store_of_check_ran (r : Run) (o : Outcome) (h : runCli r = some o) (hc : Cmd.check ∈ o.commandsRun) :
+    o.store = ⟨r.schemaFiles.length, r.opFiles.length⟩ := by
+  obtain ⟨o', h', sh⟩ := runCli_shape r
+  rw [h] at h'; cases h'
+  cases sh with
+  | noCommand _ ho => subst ho; simp [outcomeOf, St.init] at hc
+  | schemaParse _ _ ho => subst ho; simp [outcomeOf, St.init] at hc
+  | opParse _ _ _ ho => subst ho; simp [outcomeOf, St.init] at hc
+  | commands _ _ _ ho => subst ho; rfl
 
 /-! ### the composed model: where positions lie -/
 
@@ -318,13 +343,13 @@ theorem pathPos_pos {v : OpView Text κ} (hv : v ∈ views E P) : ∀ i ∈ impo
 
 /-- **every entry of `check_impl`'s result, computed by the stage models, lies in a file of the kind it announces** —
     provided the schema check, when it accepts the resolved schema, leaves no undefined argument type / non-object
-    union member (`schemaRefsOkB`; part of C03's `SchemaValid`) -/
+    union member (`SchemaQ`; discharged in `Lemmas/CliComposedChecked.lean`) -/
 theorem checkImpl_inRange
-    (hS : CheckTs.checkSchema (resolvedSchema E P) = [] → schemaRefsOkB ⟨resolvedSchema E P⟩ = true) :
+    (hS : CheckTs.checkSchema (resolvedSchema E P) = [] → SchemaQ ⟨resolvedSchema E P⟩ (OpPos P)) :
     ∀ e ∈ checkImpl (stagesOf E P), InRange (stagesOf E P) e := by
   intro e he
   obtain ⟨p, hpe, hq⟩ := checkImpl_QQ (mergedSchema_pos hp) (fun v hv => view_doc_pos hp hv)
-    (fun v hv => pathPos_pos hp hv) (fun h => schemaQ_of_refsOk (hS h) _) e he
+    (fun v hv => pathPos_pos hp hv) hS e he
   rcases hq with ⟨hk, hb | hlt⟩ | ⟨hk, hb | ⟨hge, hlt⟩⟩
   · left; rw [hpe]; exact hb
   · right; left; refine ⟨hk, ?_⟩; rw [hpe, schemaFiles_length]; exact hlt
@@ -344,6 +369,70 @@ theorem view_doc_file {v : OpView Text κ} (hv : v ∈ views E P) :
     simp only [docOf]
     intro p hp'
     exact hp.op _ _ D hq p hp'
+
+/-- the notes of every entry of `check_impl`'s result lie at built-in positions or in schema files -/
+theorem checkImpl_extras : ∀ e ∈ checkImpl (stagesOf E P), ∀ q ∈ e.diag.extra,
+    q.builtin = true ∨ q.file < P.schemaTexts.length := by
+  intro e he q hq
+  rcases checkImpl_cases (stagesOf E P) with ⟨d, hd, heq⟩ | ⟨_, _, heq⟩ | ⟨_, _, _, heq⟩ | ⟨_, _, _, _, heq⟩ |
+      ⟨_, _, _, _, heq⟩
+  · rw [heq] at he
+    simp at he
+    subst he
+    simp only [stagesOf] at hd
+    cases hr : ExtResolve.resolve (mergedSchema E P) with
+    | ok T => rw [hr] at hd; cases hd
+    | error ee =>
+      rw [hr] at hd
+      simp only [Option.some.injEq] at hd
+      subst hd
+      simp only [schemaExtDiag, List.mem_map] at hq
+      obtain ⟨p, hpm, rfl⟩ := hq
+      exact (Ext.resolve_err_PQ (mergedSchema_pos hp) hr).2 p hpm
+  · rw [heq] at he
+    obtain ⟨_, _, hd⟩ := mem_tagged.mp he
+    simp only [stagesOf] at hd
+    obtain ⟨x, _, hxe⟩ := List.mem_map.mp hd
+    rw [← hxe] at hq
+    simp [schemaCheckDiag] at hq
+  · rw [heq] at he
+    obtain ⟨_, _, hd⟩ := mem_tagged.mp he
+    obtain ⟨f, hf, hfe⟩ := List.mem_filterMap.mp hd
+    simp only [stagesOf] at hf
+    obtain ⟨v, _, rfl⟩ := List.mem_map.mp hf
+    simp only [opFileOf] at hfe
+    cases hr : extOf E.code v.doc with
+    | ok imps => rw [hr] at hfe; cases hfe
+    | error ee =>
+      rw [hr] at hfe
+      simp only [Option.some.injEq] at hfe
+      rw [← hfe] at hq
+      simp [opExtDiag] at hq
+  · rw [heq] at he
+    obtain ⟨_, _, hd⟩ := mem_tagged.mp he
+    obtain ⟨f, hf, hfe⟩ := List.mem_filterMap.mp hd
+    simp only [stagesOf] at hf
+    obtain ⟨v, _, rfl⟩ := List.mem_map.mp hf
+    simp only [opFileOf] at hfe
+    cases hr : impOf E P v with
+    | ok out => rw [hr] at hfe; cases hfe
+    | outOfFuel => rw [hr] at hfe; cases hfe
+    | err ee =>
+      rw [hr] at hfe
+      simp only [Option.some.injEq] at hfe
+      rw [← hfe] at hq
+      cases ee <;> simp [opImportDiag, impErrExtra] at hq
+      subst hq
+      left; rfl
+  · rw [heq] at he
+    obtain ⟨_, _, hd⟩ := mem_tagged.mp he
+    obtain ⟨f, hf, hfe⟩ := List.mem_flatMap.mp hd
+    simp only [stagesOf] at hf
+    obtain ⟨v, _, rfl⟩ := List.mem_map.mp hf
+    simp only [opFileOf] at hfe
+    obtain ⟨x, _, hxe⟩ := List.mem_map.mp hfe
+    rw [← hxe] at hq
+    simp [opCheckDiag] at hq
 
 end
 end NitroVerif.CliComposed
